@@ -76,6 +76,40 @@ Section Statements.
     length (evaluate A eqb cands check limit arrival) =
     match limit with O => length (attempts A eqb check cands) | S _ => Nat.min limit (length (attempts A eqb check cands)) end.
   Proof. exact (ListObjectsProofs.evaluate_length A eqb). Qed.
+
+  (* Execute (unary) including its error handling; Failed = an error is returned *)
+  Theorem execute_sound : forall (P check : A -> bool) cands limit arrival err_after l,
+    (forall o, check o = true -> P o = true) ->
+    nofurther_sound A P cands = true ->
+    execute A eqb cands check limit arrival err_after = Objects A l ->
+    NoDup l /\ forall o, In o l -> P o = true.
+  Proof. exact (ListObjectsProofs.execute_sound A eqb eqb_spec). Qed.
+
+  (* Full-strength statement (no hypothesis on err_after / limit) is refuted below
+     (execute_complete_refuted); this is the _partial version: the boolean trigger excluded is
+     "an evaluation error occurred and maxResults = 0". *)
+  Theorem execute_complete_partial : forall (P check : A -> bool) univ cands limit arrival err_after l,
+    err_after = None \/ 0 < limit ->
+    (forall o, P o = true -> check o = true) ->
+    complete A eqb P univ cands = true ->
+    execute A eqb cands check limit arrival err_after = Objects A l ->
+    limit = 0 \/ length l < limit ->
+    forall o, In o univ -> P o = true -> In o l.
+  Proof. exact (ListObjectsProofs.execute_complete_partial A eqb eqb_spec). Qed.
+
+  Theorem execute_streamed_sound : forall (P check : A -> bool) cands arrival err_after,
+    (forall o, check o = true -> P o = true) ->
+    nofurther_sound A P cands = true ->
+    NoDup (fst (execute_streamed A eqb cands check arrival err_after)) /\
+    forall o, In o (fst (execute_streamed A eqb cands check arrival err_after)) -> P o = true.
+  Proof. exact (ListObjectsProofs.execute_streamed_sound A eqb eqb_spec). Qed.
+
+  Theorem execute_streamed_complete : forall (P check : A -> bool) univ cands arrival err_after,
+    (forall o, P o = true -> check o = true) ->
+    complete A eqb P univ cands = true ->
+    snd (execute_streamed A eqb cands check arrival err_after) = false ->
+    forall o, In o univ -> P o = true -> In o (fst (execute_streamed A eqb cands check arrival err_after)).
+  Proof. exact (ListObjectsProofs.execute_streamed_complete A eqb eqb_spec). Qed.
 End Statements.
 
 Print Assumptions lo_sound.
@@ -87,6 +121,10 @@ Print Assumptions lo_limit_short.
 Print Assumptions lo_deadline_prefix_sound.
 Print Assumptions arrange_surjective.
 Print Assumptions evaluate_length.
+Print Assumptions execute_sound.
+Print Assumptions execute_complete_partial.
+Print Assumptions execute_streamed_sound.
+Print Assumptions execute_streamed_complete.
 
 (* ---- non-vacuity: a concrete run.  Objects 1..5; permitted = odd numbers.  The candidate list
    repeats 1 (second arrival with the other status), offers 2 and 4 for further evaluation and
@@ -179,3 +217,46 @@ Proof.
   vm_compute. repeat split; auto. intros [H | []]. discriminate.
 Qed.
 Print Assumptions lo_complete_needs_contract_refuted.
+
+(* ---- Execute: examples and the refutation of unconditional completeness ---- *)
+Example execute_sound_ex :
+  execute nat Nat.eqb ex_cands ex_P 2 ex_arrival (Some 5) = Objects nat [3; 5] /\
+  execute nat Nat.eqb ex_cands ex_P 2 ex_arrival (Some 1) = Failed nat /\
+  execute nat Nat.eqb ex_cands ex_P 0 ex_arrival None = Objects nat [3; 5; 1].
+Proof. vm_compute. repeat split. Qed.
+
+Example execute_complete_partial_ex : forall l,
+  execute nat Nat.eqb ex_cands ex_P 7 ex_arrival None = Objects nat l -> In 1 l.
+Proof.
+  intros l H.
+  apply (execute_complete_partial nat Nat.eqb nat_eqb_spec ex_P ex_P ex_univ ex_cands 7 ex_arrival None l);
+    [left; reflexivity | auto | reflexivity | exact H | | simpl; tauto | reflexivity].
+  right. vm_compute in H. inversion H; subst. simpl. auto with arith.
+Qed.
+
+Example execute_streamed_ex :
+  execute_streamed nat Nat.eqb ex_cands ex_P ex_arrival (Some 2) = ([3; 5], true) /\
+  execute_streamed nat Nat.eqb ex_cands ex_P ex_arrival None = ([3; 5; 1], false).
+Proof. vm_compute. split; reflexivity. Qed.
+
+(* Full-strength completeness of a successful, uncut unary response:
+        forall ... err_after, execute ... = Objects l -> limit = 0 \/ length l < limit ->
+          In o univ -> P o = true -> In o l
+   is refuted by the code as written: with maxResults = 0 an evaluation error is dropped
+   (len(objects) < 0 is never true) and the partial list is returned without error.
+   Witness: the contract holds, check = P, objects 1 and 3 permitted, the error strikes after
+   the first send; the response is Objects [3] and the permitted object 1 is missing.
+   Finding limit0_error_swallowed; confirmed on the real code by harness/cmd/c05. *)
+Theorem execute_complete_refuted :
+  exists (P check : nat -> bool) (univ : list nat) (cands : list (cand nat)) (limit : nat)
+         (arrival : list nat) (err_after : option nat) (l : list nat) (o : nat),
+    (forall o, check o = P o) /\
+    nofurther_sound nat P cands = true /\
+    complete nat Nat.eqb P univ cands = true /\
+    execute nat Nat.eqb cands check limit arrival err_after = Objects nat l /\
+    limit = 0 /\ In o univ /\ P o = true /\ ~ In o l.
+Proof.
+  exists ex_P, ex_P, ex_univ, ex_cands, 0, ex_arrival, (Some 1), [3], 1.
+  vm_compute. repeat split; auto. intros [H | []]. discriminate.
+Qed.
+Print Assumptions execute_complete_refuted.
